@@ -240,7 +240,15 @@ func richEdits(r *hx.R, e *specs.ContainerEdits, tag string) {
 		e.Mounts = append(e.Mounts, &specs.Mount{HostPath: "/host/" + tag, ContainerPath: hx.Pick(r, []string{"/mnt/a", "/mnt/a/b", "/mnt/c", "/data"}), Options: []string{"ro"}})
 	}
 	if r.Chance(0.5) {
-		e.DeviceNodes = append(e.DeviceNodes, &specs.DeviceNode{Path: hx.Pick(r, []string{"/dev/x0", "/dev/x1", "/dev/x2"}), Type: "c", Major: int64(1 + r.Intn(200)), Minor: int64(r.Intn(200)), Permissions: hx.Pick(r, []string{"", "rw", "r"})})
+		dn := &specs.DeviceNode{Path: hx.Pick(r, []string{"/dev/x0", "/dev/x1", "/dev/x2"}), Type: "c", Major: int64(1 + r.Intn(200)), Minor: int64(r.Intn(200)), Permissions: hx.Pick(r, []string{"", "rw", "r"})}
+		if r.Chance(0.4) {
+			fm := os.FileMode(hx.Pick(r, []uint32{0o660, 0o600, 8630, 25008, 0o4755}))
+			dn.FileMode = &fm
+		}
+		if r.Chance(0.2) {
+			dn.UID = u32(uint32(r.Intn(3)) * 100)
+		}
+		e.DeviceNodes = append(e.DeviceNodes, dn)
 	}
 	if r.Chance(0.3) {
 		e.Env = append(e.Env, hx.Pick(r, []string{"SHARED=", "COMMON="})+tag)
